@@ -53,6 +53,9 @@ class AnnotatedValue:
     def __repr__(self):
         return f"Parameter({repr(self.name)}, {self.kind})"
 
+    def __str__(self):
+        return self.name
+
     def __eq__(self, other):
         try:
             return self.name == other.name and self.kind == other.kind
